@@ -6,6 +6,9 @@
 (* are columns), comment rows and blank rows.  The driver renders the rows as CSV text     *)
 (* (spelling variants of any/TRUE/FALSE/ditto and white space are chosen by the driver),   *)
 (* has the real reader read the file and compares the denoted sets cell by cell.           *)
+(* The cells of the table are value-set objects of their own (ValueSets.tla): Touch models *)
+(* a caller adding a value to one cell of the row read last; every other cell -- a ditto   *)
+(* cell's left neighbour in particular -- still holds what the file says.                  *)
 EXTENDS ConstraintTableOps, TLC
 
 CONSTANTS Keys, MaxCols, MaxLen,
@@ -47,7 +50,9 @@ Project(t) == [i \in 1..Len(t) |-> [k \in DOMAIN t[i] |-> [any |-> t[i][k].any, 
 Init == /\ hist \in PreRowSeqs /\ tab = ReadRowRecs(<<>>, hist) /\ obs = Project(tab)
         /\ nread = 0 /\ pre = tab /\ inp = [kind |-> "init"]
 
-Read(r) == /\ nread < MaxLen /\ nread' = nread + 1
+TouchVals == {4}
+
+Read(r) == /\ nread < MaxLen /\ nread' = nread + 1 /\ inp.kind # "touch"
            /\ tab' = IF r.kind = "data" THEN ApplyRow(tab, r.key, r.cells) ELSE tab
            /\ obs' = Project(tab')
            /\ pre' = tab /\ inp' = r /\ hist' = Append(hist, r)
@@ -56,7 +61,19 @@ DataRow    == \E key \in Keys, n \in 0..MaxCols : \E cells \in CellSeqsOfLen(n) 
                 Read([kind |-> "data", key |-> key, cells |-> cells])
 CommentRow == \E n \in 0..MaxCols : Read([kind |-> "comment", n |-> n])
 BlankRow   == \E n \in 0..MaxCols : Read([kind |-> "blank", n |-> n])
-Next == DataRow \/ CommentRow \/ BlankRow
+\* The caller adds w to the last cell of the row just read (sharing is symmetric: a cell that shares state
+\* with its left neighbour, with a cell of an earlier row or column shows it whichever of the two is added
+\* to; rows of every length end in every kind of cell).  The row is part of the operation: how the cell was
+\* written (ditto, values, ...) is what an implementation might make objects from.  Ends the behaviour.
+Touch == \E w \in TouchVals :
+  /\ inp.kind = "data" /\ Len(inp.cells) > 0
+  /\ LET i == Len(inp.cells) IN
+     /\ tab' = [tab EXCEPT ![i][inp.key] = DenAddValue(@, w)]
+     /\ inp' = [kind |-> "touch", i |-> i, key |-> inp.key, w |-> w, row |-> inp.cells]
+  /\ obs' = Project(tab')
+  /\ UNCHANGED nread
+  /\ pre' = tab /\ hist' = Append(hist, inp')
+Next == DataRow \/ CommentRow \/ BlankRow \/ Touch
 Spec == Init /\ [][Next]_vars
 
 (* --- what "contain the values, ranges, any and ditto cells written in the file" means --- *)
@@ -78,6 +95,13 @@ NothingElse ==
        /\ Len(tab) >= Len(pre)
        /\ \A i \in 1..Len(tab) : \A k \in DOMAIN tab[i] :
             (k # inp.key \/ i > Len(inp.cells)) => (i <= Len(pre) /\ k \in DOMAIN pre[i] /\ pre[i][k] = tab[i][k])
+
+\* an addition to one cell shows in that cell and in no other
+TouchLocal == inp.kind = "touch" =>
+  /\ Len(tab) = Len(pre)
+  /\ \A j \in 1..Len(tab) : /\ DOMAIN tab[j] = DOMAIN pre[j]
+                             /\ \A k \in DOMAIN tab[j] :
+                                  tab[j][k] = IF j = inp.i /\ k = inp.key THEN DenAddValue(pre[j][k], inp.w) ELSE pre[j][k]
 
 View == <<pre, inp, tab>>
 =============================================================================
